@@ -50,9 +50,27 @@ long aw_live_id(const void * p) { struct ent * e = find(p); return (e ? e->id : 
 size_t aw_live_size(const void * p) { struct ent * e = find(p); return (e ? e->sz : 0); }
 size_t aw_last_realloc_size(void) { return (last_realloc_ptr ? last_realloc_sz : 0); }
 
+/* Recycling (aw_recycle): while on, a released tracked block is kept and handed out again, contents and all, by the next request
+ * of the same size - what a production allocator does at once and the sanitizer's quarantine never does.  Makes "a new object at
+ * the address of the one just freed" a deterministic event. */
+#define NSTASH 8
+static struct { void * p; size_t sz; } stash[NSTASH];
+static int nstash, recycle;
+void aw_recycle(int on) {
+	recycle = on;
+	if (!on) while (nstash > 0) __real_free(stash[--nstash].p);
+}
+static void * unstash(size_t n) {
+	int i;
+	for (i = nstash - 1; i >= 0; i--)
+		if (stash[i].sz == n) { void * p = stash[i].p; stash[i] = stash[--nstash]; return (p); }
+	return (NULL);
+}
+
 void * __wrap_malloc(size_t n) {
 	void * p;
 	if (shouldfail()) return (NULL);
+	if (recycle && (p = unstash(n)) != NULL) { if (enabled) add(p, n); return (p); }
 	p = __real_malloc(n);
 	if (p && enabled) add(p, n);
 	return (p);
@@ -82,6 +100,12 @@ void __wrap_free(void * p) {
 	if (enabled) {
 		struct ent * e = find(p);
 		if (e && aw_free_hook != NULL) aw_free_hook(p, e->sz);
+		if (recycle && e != NULL && nstash < NSTASH) {
+			stash[nstash].p = p; stash[nstash].sz = e->sz; nstash++;
+			del(p);
+			if (p == last_realloc_ptr) last_realloc_ptr = NULL;
+			return;
+		}
 		del(p);
 		if (p == last_realloc_ptr) last_realloc_ptr = NULL;
 	}
